@@ -274,6 +274,13 @@ type brokenBox struct {
 	box             Box
 	containingBlock Box
 	resumeAt        tree.ResumeStack
+	order           int // rank of creation during the layout: the continuations are laid out in that order
+}
+
+// newBrokenBox registers the continuation of an out-of-flow box broken at the bottom of the page.
+func (context *layoutContext) newBrokenBox(box, containingBlock Box, resumeAt tree.ResumeStack) brokenBox {
+	context.brokenOutOfFlowRank++
+	return brokenBox{box: box, containingBlock: containingBlock, resumeAt: resumeAt, order: context.brokenOutOfFlowRank}
 }
 
 // layoutContext stores the global context needed during layout,
@@ -295,6 +302,7 @@ type layoutContext struct {
 	excludedShapes      *[]*bo.BoxFields
 	excludedShapesLists [][]*bo.BoxFields
 	brokenOutOfFlow     map[Box]brokenBox
+	brokenOutOfFlowRank int
 
 	footnotes            []Box
 	currentPageFootnotes []Box
